@@ -22,6 +22,7 @@ import (
 
 	"verifharness/internal/kvmodel"
 	"verifharness/internal/locksim"
+	"verifharness/internal/locktap"
 	"verifharness/internal/report"
 	"verifharness/internal/shard"
 )
@@ -336,7 +337,7 @@ func staleRenewal(L time.Duration, n int32) (sig, what string, stall time.Durati
 func TestCheck(t *testing.T) {
 	run := report.New(prop, "fault_enumeration")
 	defer run.Finish(t)
-	run.Rule("controlled: scenarios of 2-5 workers (distinct Lockers of 1-3 providers and goroutines sharing a Locker) running programs over {Lock, TryLock, LockWithCtx} inside a synctest bubble; every kvs.Storage call of the lock code is a gate, the scheduler picks one enabled action per step (release a gate normally / as 'request lost' / as 'reply lost' with up to 2 faults, cancel an attempt before or during the call, leave a critical section, expire an ownerless record) - random and PCT schedules plus exhaustive DFS of 27 two-worker configurations with <=1 fault; monitor: number of callers between acquisition return and Unlock call never exceeds 1. take-over: on the real clock with a 300/400 ms lease (hook) a caller waits 1.25-2 leases behind a holder, takes over and holds for 3 leases against a TryLock-spinning third Locker (canary-guarded); stale renewal: the answer of the previous holder's n-th renewal arrives after it unlocked and another caller acquired. free-running: same monitor under real scheduling with the race detector on inmem and Redis(miniredis). distinct = distinct (configuration, action trace) pairs executed in the controlled part")
+	run.Rule("controlled: scenarios of 2-5 workers (distinct Lockers of 1-3 providers and goroutines sharing a Locker) running programs over {Lock, TryLock, LockWithCtx} inside a synctest bubble; every kvs.Storage call of the lock code is a gate, the scheduler picks one enabled action per step (release a gate normally / as 'request lost' / as 'reply lost' with up to 2 faults, cancel an attempt before or during the call, leave a critical section, expire an ownerless record) - random and PCT schedules plus exhaustive DFS of 27 two-worker configurations with <=1 fault; monitor: number of callers between acquisition return and Unlock call never exceeds 1. take-over: on the real clock with a 300/400 ms lease (hook) a caller waits 1.25-2 leases behind a holder, takes over and holds for 3 leases against a TryLock-spinning third Locker (canary-guarded); stale renewal: the answer of the previous holder's n-th renewal arrives after it unlocked and another caller acquired. unlock vs failed renewal: A's renewal is answered with an error (request lost) while A is unlocking, then B acquires and a third Locker spins. free-running: same monitor under real scheduling with the race detector on inmem and Redis(miniredis). distinct = distinct (configuration, action trace) pairs executed in the controlled part")
 	run.Assume("controlled part: frozen virtual time, so leases never expire under a live holder (the property's premise); storage operations are atomic steps there - their internal atomicity is what the free-running part and C02 look at")
 	run.Assume("an ownerless lock record (left by an injected lost reply / lost Delete) disappears only through the explicit 'expire' action, which models lease expiry")
 
@@ -399,6 +400,36 @@ func TestCheck(t *testing.T) {
 				run.DistinctStr(fmt.Sprint("stale-renewal", L, n))
 				if sig != "" {
 					run.Violation(sig, what, map[string]any{"mode": "stale-renewal", "lease": L.String(), "renewal": n})
+				}
+				return
+			}
+		}(i)
+	}
+	for i := 0; i < run.Pick(4, 16); i++ {
+		twg.Add(1)
+		go func(i int) {
+			defer twg.Done()
+			L := []time.Duration{400 * time.Millisecond, 300 * time.Millisecond}[i%2]
+			for attempt := 1; ; attempt++ {
+				o := locktap.UnlockVsFailedRenewal(L, 1+i%2)
+				run.Max("canary_worst_stall_us", int64(o.Stall/time.Microsecond))
+				if o.Skipped != "" {
+					run.Add("unlock_vs_failed_renewal_skipped", 1)
+					return
+				}
+				if o.Sig != "" && o.Stall > L/8 {
+					if attempt < 3 {
+						run.Add("takeover_repeated_because_of_a_stall", 1)
+						continue
+					}
+					run.Inconclusive(fmt.Sprintf("unlock-vs-failed-renewal: %s (canary stall %v)", o.What, o.Stall))
+					return
+				}
+				run.Eval(1)
+				run.Add("unlock_vs_failed_renewal_scenarios", 1)
+				run.DistinctStr(fmt.Sprint("unlock-vs-failed-renewal", L, 1+i%2))
+				if o.Sig != "" {
+					run.Violation("lock/two-holders", "real clock: "+o.What, map[string]any{"mode": "unlock-vs-failed-renewal", "lease": L.String(), "renewal": 1 + i%2})
 				}
 				return
 			}
